@@ -248,7 +248,12 @@ impl VerifiableEncryptionProof {
                         }
                     }
                 });
-            let value = Option::<Scalar>::from(Scalar::from_be_bytes(&scalar_be_bytes))?;
+            // the verifier checks the byte decomposition in the field, so the 256-bit integer the
+            // bytes spell may exceed the modulus: reduce it rather than insist on a canonical encoding
+            let shift = Scalar::from(256u16);
+            let value = scalar_be_bytes
+                .iter()
+                .fold(Scalar::ZERO, |acc, b| acc * shift + Scalar::from(*b as u64));
             if self.c2 - self.c1 * key.0 == G1Projective::GENERATOR * value {
                 return Some(value);
             }
